@@ -2389,13 +2389,15 @@ def preprocess_file(
             # spare the expensive regex-substitution in case we do not need it at all
             if def_tmp not in line:
                 continue
-            def_regex = def_regexes.get(def_tmp)
+            # The cached regex belongs to one definition of the macro: after
+            # `#undef` the name can be defined again with another value or kind
+            def_regex = def_regexes.get((def_tmp, value))
             if def_regex is None:
                 if isinstance(value, tuple):
                     def_regex = expand_func_macro(def_tmp, value)
                 else:
                     def_regex = re.compile(rf"\b{def_tmp}\b")
-                def_regexes[def_tmp] = def_regex
+                def_regexes[(def_tmp, value)] = def_regex
 
             if isinstance(def_regex, tuple):
                 def_regex, value = def_regex
